@@ -652,6 +652,7 @@ def rule_r3(chk) -> None:
             matched += 1
             st = enclosing_stmt(c)
             checks = _check_sources(send, cfg, st)
+            all_regions = [la[0] for _w, la in _lock_regions(st)]
             shared = [la[0] for w, la in _lock_regions(st) if checks and all(any(x is s for x in ast.walk(w)) for s in checks)]
             sender_has_region |= bool(shared)
             common = [a for a in shared if a in releaser_locks]
@@ -669,8 +670,10 @@ def rule_r3(chk) -> None:
             if by_lifecycle:
                 ok, reason = True, ""
                 chk.observe(f"C26.R3: [{stack}] the sender's critical section is provided by the lifecycle object (`{by_lifecycle[0]}`); its mutual exclusion with begin_release is trusted, not analysed")
+            elif not checks and any(a in releaser_locks for a in all_regions):
+                raise AnchorError(f"C26.R3: `{ext.name}.send_event` sends inside the releaser's lock region but the rule cannot identify the liveness check it relies on")
             elif not checks:
-                ok, reason = False, "the forwarding send is not guarded (inside its critical section) by any liveness / lifecycle check"
+                ok, reason = False, "the forwarding send is neither guarded by a liveness / lifecycle check nor inside the releaser's critical section"
             elif common:
                 unknown = [a for a in common if a not in locks]
                 if unknown:
